@@ -132,7 +132,8 @@ def q_rules(P, E):
             if not emp:
                 r.violate(("Q3", b.nid, "predicate ignores queue emptiness"), "the wait predicate does not test queue emptiness", body=pb)
             # the predicate must return false (stop waiting) on the aborted edge
-            _check_predicate_polarity(P, r, pb)
+            if ab:
+                _check_predicate_polarity(P, r, pb)
         else:
             fwd = b.reachable_from(c.bb)
             cyc = {x for x in fwd if c.bb in b.reachable_from(x)}
@@ -301,6 +302,31 @@ def q_rules(P, E):
     nb = P.body(NTS + "::new")
     if nb is None or sum(1 for c in spawns if c.body.id == nb.id) != 1:
         r.violate(("Q7", NTS + "::new", "not exactly one spawn"), "NewThreadScheduler::new must start exactly one worker", body=nb)
+
+    # ---- Q12: who may stop the queue: only IScheduler::abort (an explicit abort).  stop() discards what is queued, so
+    # any other way of reaching it (a Drop impl, post, a constructor) loses tasks that were posted with no abort pending.
+    def _is_abort_entry(x):
+        return x.name == "abort" and "IScheduler" in (x.impl_trait or "")
+    stop_callers = [(x, c) for x in P.orig.values() for c in x.calls if c.path == AFQ + "::stop"]
+    r.instance(("Q12", "stop callers"), True, "%s" % sorted(x.nid for x, _ in stop_callers))
+    if not stop_callers:
+        r.error("Q12: stop() has no caller")
+    seen_q12 = set()
+    work_q12 = list(stop_callers)
+    while work_q12:
+        x, c = work_q12.pop()
+        if (x.id, c.bb) in seen_q12:
+            continue
+        seen_q12.add((x.id, c.bb))
+        if _is_abort_entry(x):
+            continue
+        ups = P.callers_of(x) if (x.kind in ("fn", "assoc") and x.vis != "pub" and not x.impl_trait) else []
+        if ups:                                  # a private helper: judged by its callers
+            work_q12.extend((P.orig.get(u.id, u), uc) for (u, uc) in ups)
+            continue
+        r.violate(("Q12", x.nid, "queue stopped outside IScheduler::abort"),
+                  "AsyncFunctionQueue::stop() - which discards every queued task - is reached from %s, not from an explicit "
+                  "IScheduler::abort: tasks posted while no abort was pending are dropped unrun" % x.nid, body=x, line=c.line)
 
     # ---- Q10: stop clears under the guard, with the flag
     qa, held, sh = _field_acqs(P, stop, "queue")
